@@ -1494,6 +1494,7 @@ where
         // if parsed input is actually invalid, keep the previous one for rollback
         let pre_input = self.input.clone();
         self.consume('{');
+        let min_digits = self.input.clone();
         let optmin = self.try_consume_decimal_integer_literal();
         let Some(optmin) = optmin else {
             // not a valid quantifier, rollback consumption
@@ -1506,10 +1507,19 @@ where
             greedy: true,
         };
         if self.try_consume(',') {
+            let max_digits = self.input.clone();
             let max = self.try_consume_decimal_integer_literal();
             // Either like {3,4} in which case we want to set the max;
             // or like {3,} in which case the max should be None to indicate unbounded.
             quant.max = max;
+            // Both bounds saturated: keep a reversed pair like {99999999999999999999,99999999999999999998}
+            // reversed, so that it is still reported as an invalid quantifier.
+            if optmin == usize::MAX
+                && max == Some(usize::MAX)
+                && Self::decimal_digits(min_digits) > Self::decimal_digits(max_digits)
+            {
+                quant.max = Some(usize::MAX - 1);
+            }
         } else {
             // Like {3}.
         }
@@ -1519,6 +1529,16 @@ where
             return None;
         }
         Some(quant)
+    }
+
+    // The leading decimal digits of `input` without leading zeros, as (length, digits):
+    // tuples of this form order like the numbers they denote.
+    fn decimal_digits(input: Peekable<I>) -> (usize, Vec<u32>) {
+        let digits: Vec<u32> = input
+            .take_while(|c| (0x30..=0x39).contains(c))
+            .skip_while(|c| *c == 0x30)
+            .collect();
+        (digits.len(), digits)
     }
 
     /// ES6 11.8.3 DecimalIntegerLiteral.
